@@ -221,8 +221,8 @@ def _c16_vm_sample(d, tier, coq, build, want=300):
 
 CONFIG = {
     "properties_file": "Properties/C16.v",
-    "proof_files": ["Base/Prelude.v", "Proofs/Scopes.v", "Proofs/ScopesIdem.v", "Proofs/AuthClient.v", "Proofs/AuthHistory.v", "Proofs/Once.v", "Proofs/CacheSet.v", "Proofs/OnceSlot.v", "Proofs/AuthConc.v"],
-    "model_files": ["Generated/GC16.v", "Model/Scopes.v", "Model/Challenge.v", "Model/AuthClient.v", "Model/Once.v", "Model/CacheSet.v", "Model/OnceSlot.v", "Model/AuthConc.v"],
+    "proof_files": ["Base/Prelude.v", "Proofs/Scopes.v", "Proofs/ScopesIdem.v", "Proofs/AuthClient.v", "Proofs/AuthHistory.v", "Proofs/Once.v", "Proofs/CacheSet.v", "Proofs/OnceSlot.v", "Proofs/AuthConc.v", "Proofs/Redirect.v"],
+    "model_files": ["Generated/GC16.v", "Model/Scopes.v", "Model/Challenge.v", "Model/AuthClient.v", "Model/Once.v", "Model/CacheSet.v", "Model/OnceSlot.v", "Model/AuthConc.v", "Model/Redirect.v"],
     "extract": "XC16.v",
     "ml_main": "c16_main.ml",
     "harness": "c16",
